@@ -92,6 +92,10 @@ def rand_quals(rng, nmax=4, hostile=False):
             vals += twin_values(rng)  # >= 3 values that collide under casefold / strip / normalisation / numeric value / prefix keys
             rng.shuffle(vals)
         out[k] = vals
+    if out and (sum(len(v) for v in out.values()) + len(out)) % 7 == 0:
+        # a flag-like qualifier: a key whose value list is empty (kept as an empty set / empty list by every round trip); chosen by
+        # content so that the random stream of everything else is what it was
+        out["pseudo" if "pseudo" not in out else "flag"] = []
     return out
 
 
